@@ -32,7 +32,7 @@ type C18Plan struct {
 
 const rootName = "data"
 
-var segPool = []string{"a", "b", "..", "..", ".", "", rootName, rootName + "-other", rootName + "2", "x"}
+var segPool = []string{"a", "b", "..", "..", ".", "", rootName, rootName + "-other", rootName + "2", "x", "pkg_v1-0-0-beta", "tmp"}
 
 func genC18(rng *rand.Rand, tier string) *C18Plan {
 	p := &C18Plan{Comp: []string{"fstree", "fstree", "dirstruct", "scan", "unpack"}[rng.IntN(5)], Depth: 1 + rng.IntN(4)}
@@ -50,7 +50,7 @@ func genC18(rng *rand.Rand, tier string) *C18Plan {
 		case "fstree":
 			p.Ops = append(p.Ops, []string{"get", "put", "delete", "query"}[rng.IntN(4)])
 		case "dirstruct":
-			p.Ops = append(p.Ops, []string{"abs", "rel", "reldir"}[rng.IntN(3)])
+			p.Ops = append(p.Ops, []string{"abs", "rel", "reldir", "child", "child2"}[rng.IntN(5)])
 		case "scan":
 			p.Ops = append(p.Ops, "scan")
 		default:
@@ -174,6 +174,9 @@ func execC18(p *C18Plan, rc *simkit.RunCtx) {
 	mk(filepath.Join(parent, rootName+"2", "x"), rec("x"))
 	mk(filepath.Join(parent, "x", "a"), rec("a"))
 	mk(filepath.Join(parent, "file-in-parent"), []byte("parent"))
+	_ = os.MkdirAll(filepath.Join(root, "tmp", "pkg_v1-0-0-beta"), 0o755)
+	mk(filepath.Join(root, "tmp", "pkg_v1-0-0-beta", "x"), []byte("sibling of the unpack directory"))
+	mk(filepath.Join(root, "tmp", "pkg_v1-0-0-beta", "a"), []byte("sibling of the unpack directory"))
 	sandbox := filepath.Join(e.base, "sb")
 	before := snapshot(sandbox, root)
 	rc.H("%s depth=%d names=%d", p.Comp, p.Depth, len(p.Names))
@@ -218,6 +221,8 @@ func execC18(p *C18Plan, rc *simkit.RunCtx) {
 				name += "/"
 			}
 			target = filepath.Clean(name)
+		case op == "child2":
+			target = filepath.Clean(filepath.Join(root, "a", name))
 		default:
 			target = filepath.Clean(filepath.Join(root, name))
 		}
@@ -263,6 +268,10 @@ func execC18(p *C18Plan, rc *simkit.RunCtx) {
 				err = ds.EnsureRelPath(name)
 			case "reldir":
 				err = ds.EnsureRelDir(segs...)
+			case "child":
+				err = ds.ChildDir(name, 0o755).Ensure()
+			case "child2":
+				err = ds.ChildDir("a", 0o755).ChildDir(name, 0o700).Ensure()
 			case "scan":
 				err = reg.ScanStorage(name)
 			case "entry":
